@@ -66,6 +66,9 @@ POOL = [
     ("(a: Qint[4]) -> bool", "return a >= 9"),
     ("(a: Qint[2], b: Qint[2], c: Qint[2]) -> bool", "return a < b and b < c"),
     ("(a: Qint[2], b: Qint[2]) -> Qint[4]", "return a * b"),
+    ("(a: Qint[3], b: Qint[2]) -> bool", "return a * b == 6"),
+    ("(a: Qint[2], b: Qint[2]) -> bool", "return a * b + a == 6"),
+    ("(a: Qint[4], b: Qint[2]) -> Qint[4]", "return a - b + 3"),
     ("(a: Qlist[bool, 3]) -> bool", "return a[0] or a[1] or not a[2]"),
     # return types wider than the value: constant return bits next to non-constant ones
     ("(a: bool) -> Qint[2]", "return 1 if a else 0"),
@@ -313,7 +316,7 @@ def _fun_info(src, compiler=None, qasm=False):
     info = dict(inputs=[b for a in qf.args for b in a.bitvec], exprs=exprs_to_ir(qf.expressions))
     names = []
     for nme, _ in info["exprs"]:
-        if nme.startswith("_ret") and nme not in names:
+        if C.is_ret_name(nme) and nme not in names:
             names.append(nme)
     info["rets"] = names
     if qasm:
@@ -674,6 +677,13 @@ def gen_tasks(tier, seed):
         [("cmpl", "def cmpl(a: bool, e: bool) -> bool:\n    return (a == (not a)) and e or (a != (not a)) and not e")],
         [("pick", "def pick(x: bool, y: bool, z: bool) -> bool:\n    return x or (y and not z)"),
          ("aaa", "def aaa(x: bool, y: bool) -> bool:\n    return x ^ y")],
+        # optimised expression lists whose intermediate symbols are defined through other intermediates
+        [("mulq", "def mulq(a: Qint[3], b: Qint[2]) -> bool:\n    return a * b == 6"),
+         ("subq", "def subq(a: Qint[4], b: Qint[4]) -> Qint[4]:\n    return a - b")],
+        [("mad", "def mad(a: Qint[2], b: Qint[2]) -> bool:\n    return a * b + a == 6")],
+        # a local variable whose name starts with _ret is an intermediate, not a return bit
+        [("rv", "def rv(a: bool, b: bool) -> bool:\n    _retval = a or b\n    return not _retval"),
+         ("rw", "def rw(a: bool, b: bool, c: bool) -> bool:\n    _retx = a and b\n    _ret0 = _retx ^ c\n    return _ret0 or _retx")],
     ]
     for si in range(n_scripts):
         if si < len(fixed):
@@ -802,7 +812,7 @@ def build_cases(recs):
                 mg = C.clist(["(%s, %s)" % (C.cnat(st.idx[s]), ir_coq(e, st, allow_new=True)) for s, e in r["merged"]])
                 rs = []
                 for s, _ in cv["exprs"]:
-                    if s.startswith("_ret") and st.idx[s] not in rs:
+                    if C.is_ret_name(s) and st.idx[s] not in rs:
                         rs.append(st.idx[s])
                 cj = ir_coq(conj, st, allow_new=True)
                 if len(cv["inputs"]) <= MAX_TT:
